@@ -287,7 +287,8 @@ def generate(tier, seed):
             A, B = pool[ia], pool[ib]
             forms = [{"kind": "And", "args": [A, B]}, {"kind": "Or", "args": [A, B]}, {"kind": "Xor", "a": A, "b": B},
                      {"kind": "Implies", "cond": CONDS[(ia + ib) % 3], "args": [A, B] if (ia + ib) % 2 else [A]},
-                     {"kind": "IfThenElse", "cond": CONDS[(ia + ib) % 2], "then": [A], "else": [B]}]
+                     {"kind": "IfThenElse", "cond": CONDS[(ia + ib) % 2], "then": [A], "else": [B]},
+                     {"kind": "IfThenElse", "cond": CONDS[(ia + ib + 1) % 2], "then": [A, B], "else": [B, pool[(ia + 1) % len(pool)]]}]
             for f in forms:
                 cases.append({"cid": f"tt-{otag}-{f['kind']}-{ia}-{ib}", "family": f"truthtable:{f['kind']}",
                               "kind": "tt", "spec": spec, "formula": copy.deepcopy(f), "limit": lim, "rng": seed})
